@@ -27,7 +27,7 @@ fn canonicalize_slice(
     };
 
     // Cap slice_length
-    let slice_length = if slice_offset + slice_length > vec_length {
+    let slice_length = if slice_offset.saturating_add(slice_length) > vec_length {
         vec_length - slice_offset
     } else {
         slice_length
@@ -83,7 +83,8 @@ impl Filter for SliceFilter {
             ))
         } else {
             let input = input.to_kstr();
-            let (offset, length) = canonicalize_slice(offset, length, input.len());
+            // offsets and lengths count characters, not bytes
+            let (offset, length) = canonicalize_slice(offset, length, input.chars().count());
             Ok(Value::scalar(
                 input.chars().skip(offset).take(length).collect::<String>(),
             ))
